@@ -137,11 +137,11 @@ theorem ingestReg_fresh (c : Cfg) (o : Oracles) (s : RSt) (r : Reg)
       have hlive' : (needProbe r && o.live) = false := by
         cases h : (needProbe r && o.live) <;> simp_all
       by_cases hbl : (decide (r.source = srcDetector) && blocklisted c r.phantom) = true
-      · simp only [hbl, if_true, hlive', Bool.not_false, Bool.not_true, Bool.and_false]
+      · simp only [hbl, if_true, Bool.not_false, Bool.not_true, Bool.and_false]
         refine ⟨by unfold probeEvs shareEvs; rfl, hs1⟩
       · have hbl' : (decide (r.source = srcDetector) && blocklisted c r.phantom) = false := by
           cases h : (decide (r.source = srcDetector) && blocklisted c r.phantom) <;> simp_all
-        simp only [hbl', Bool.false_eq_true, if_false, hlive', Bool.not_false, Bool.and_true]
+        simp only [hbl', Bool.false_eq_true, if_false, Bool.not_false, Bool.and_true]
         generalize hreg : CJ.Registry.register (regCfg c)
           (CJ.Registry.track (regCfg c) s (keyOf r) r.transport 0).1 (keyOf r) r.transport 0 = res at hnew hget
         obtain ⟨s2, out⟩ := res
